@@ -27,6 +27,11 @@ PRE = {
     "both": "s0|s1|t:50|c0:z|s0|t:60|c0:a|t:70|c1:b",                    # both diverged from [.., z]
 }
 POST = "s0|s1|s1|s0|s0|s1"
+# three devices, staggered ancestors: the server holds [G, c1, c2] (from D2), D0 holds [G, c1, d] (ancestor c1),
+# D1 holds [G, b] with b older than c1 (ancestor G): D1's accepted merge moves c1, so D0's patch, built on the
+# scan it made before, rewinds to c1 and is refused — the server must roll that rewind back
+PRE3 = "s0|s1|s2|t:40|c1:b|t:50|c2:a|s2|s0|t:60|c2:c|s2|t:70|c0:d"
+POST3 = "s0|s1|s2|s0|s1|s2|s0|s1|s2"
 
 
 def corpus():
@@ -34,6 +39,8 @@ def corpus():
         "c09 k_o13 cbe=fs sbe=fs devs=2 pre=%s sched=0,0,0,0,0,1,1,1,0 post=%s" % (PRE["soft"], POST),
         "c09 k_seq cbe=fs sbe=fs devs=2 pre=%s sched=0,0,0,0,0,0,0,1,1,1 post=%s" % (PRE["soft"], POST),
         "c09 k_db cbe=db sbe=db devs=2 pre=%s sched=0,1,0,1,0,1,0,1,0,1,0,1 post=%s" % (PRE["both"], POST),
+        "c09 k_stagger cbe=fs sbe=fs devs=3 pre=%s sched=2,2,2,0,0,0,0,1,1,1,1,1,1,1,1,0,0,0 post=%s" % (PRE3, POST3),
+        "c09 k_stagger_db cbe=db sbe=db devs=3 pre=%s sched=2,2,2,0,0,0,1,1,1,1,1,1,1,1,0,0,0,0 post=%s" % (PRE3, POST3),
     ]
 
 
@@ -43,6 +50,12 @@ def gen_cases(rng, tier):
     for j in range(n):
         name = rng.choice(list(PRE))
         sched = [rng.randrange(2) for _ in range(14)]
+        if j % 4 == 3:
+            # staggered three-device pre-history: D2 idles first, then D0 and D1 interleave
+            sched3 = [2, 2, 2] + [rng.randrange(2) for _ in range(16)]
+            out.append("c09 g%d cbe=%s sbe=%s devs=3 pre=%s sched=%s post=%s" % (
+                j, "db" if j % 5 == 1 else "fs", "db" if j % 7 == 2 else "fs", PRE3, ",".join(map(str, sched3)), POST3))
+            continue
         out.append("c09 g%d cbe=%s sbe=%s devs=2 pre=%s sched=%s post=%s" % (
             j, "db" if j % 5 == 1 else "fs", "db" if j % 7 == 2 else "fs", PRE[name], ",".join(map(str, sched)), POST))
     if tier == "thorough":
